@@ -193,13 +193,69 @@ class Interp:
             # arguments are evaluated (format calls etc.) but only the class matters
             f = e.func
             kind = f.id if isinstance(f, ast.Name) else getattr(f, 'attr', 'Exception')
-            for a in e.args:
-                self.eval(a)
+            if self._is_exception_class(kind):
+                for a in e.args:
+                    self.eval(a)
+            else:
+                # raise helper(...): a function of the source that builds the exception object
+                kind = self._exception_built_by(e)
         elif isinstance(e, ast.Name):
             kind = e.id
         elif isinstance(e, ast.Constant):
             kind = 'TypeError'     # raise("text") : exceptions must derive from BaseException
         raise Raised(kind)
+
+    def _is_exception_class(self, name):
+        import builtins
+        b = getattr(builtins, name, None)
+        if isinstance(b, type) and issubclass(b, BaseException):
+            return True
+        seen = set()
+        todo = [name]
+        while todo:
+            c = todo.pop()
+            if c in seen:
+                continue
+            seen.add(c)
+            ci = self.src.classes.get(c)
+            if ci is None:
+                b = getattr(builtins, c, None)
+                if isinstance(b, type) and issubclass(b, BaseException):
+                    return True
+                continue
+            todo.extend(ci.bases)
+        # names imported from the standard library (queue.Full, queue.Empty, ...) that are not classes of the source
+        return name not in self.src.classes and self.src_function_named(name) is None
+
+    def src_function_named(self, name):
+        try:
+            v = self.c.lookup(name)
+        except Exception:
+            return None
+        return v if isinstance(v, SFunc) else None
+
+    def _exception_built_by(self, call):
+        """`raise f(...)` where f is a function of the source: run it, it must end in `return <ExceptionClass>(...)`."""
+        fn = self.src_function_named(call.func.id) if isinstance(call.func, ast.Name) else None
+        if fn is None:
+            raise Unsupported('raise of the result of %s' % ast.dump(call.func)[:80])
+        for a in call.args:
+            self.eval(a)
+        rets = [n for n in ast.walk(fn.info.node) if isinstance(n, ast.Return)]
+        kinds = set()
+        for r in rets:
+            v = r.value
+            if isinstance(v, ast.Call):
+                nm = v.func.id if isinstance(v.func, ast.Name) else getattr(v.func, 'attr', None)
+                if nm and self._is_exception_class(nm):
+                    for a in v.args:
+                        pass
+                    kinds.add(nm)
+                    continue
+            kinds.add(None)
+        if len(kinds) != 1 or None in kinds:
+            raise Unsupported('raise %s(...): the helper does not simply return one exception class' % fn.info.name)
+        return kinds.pop()
 
     def st_Assert(self, st):
         cond = self.truth(self.eval(st.test))
@@ -320,6 +376,13 @@ class Interp:
         if len(cands) != 1:
             return None
         okey = self._lkey(cands[0])
+        # an invariant belongs to ONE loop: when the loop it was written for is still where it was, another loop that
+        # merely looks the same (same code up to renaming) has no claim on it
+        ofi = self.src.funcs.get(okey[0])
+        if ofi is not None:
+            oloops = loops_of(ofi.node)
+            if okey[1] <= len(oloops) and oloops[okey[1] - 1] is not st and loop_shape(oloops[okey[1] - 1])[0] == sh:
+                return None
         onames = shapes[cands[0]]['names']
         if len(onames) != len(names):
             return None
